@@ -113,6 +113,8 @@ def gen_case(rng, quick):
         case['dtypes'] = dts
     case['roundtrip'] = p2lib.gen_roundtrips(rng, n)
     case['rejects'] = p2lib.gen_rejects(rng, n)
+    if shape and rng.random() < 0.3:
+        case['as_lists'] = True
     return case
 
 
@@ -149,6 +151,8 @@ def run_case(ctx, case, rng, lines, posts):
         dt = (case.get('dtypes') or ['float64'] * n)[i]
         if shape:
             x = np.array(obs, dtype=dt).reshape(shape)
+            if case.get('as_lists') and dt == 'float64':
+                x = x.tolist()          # the same vector / frame spelled as a (nested) Python list: one observation, like a tuple or an array
         else:
             x = obs[0] if dt == 'float64' else np.dtype(dt).type(obs[0])
         try:
@@ -168,7 +172,7 @@ def run_case(ctx, case, rng, lines, posts):
 
 
 def small(case):
-    return dict(spec=case['spec'], family=case['family'], n=case['n'], shape=case['shape'], dtypes=case.get('dtypes'), roundtrip=case.get('roundtrip'), rejects=case.get('rejects'),
+    return dict(spec=case['spec'], family=case['family'], n=case['n'], shape=case['shape'], dtypes=case.get('dtypes'), roundtrip=case.get('roundtrip'), rejects=case.get('rejects'), as_lists=case.get('as_lists'),
                 cols=[c if len(c) <= 40 else c[:40] + ['...(%d more; regenerate with the seed)' % (len(c) - 40)] for c in case['cols']])
 
 
